@@ -303,9 +303,12 @@ fn judge(s: &Schedule, b: &Built, r: &JobResult) -> (Vec<Finding>, usize, BTreeS
                 // listed: a read served while a flush is held inside the zone writer leaves stale
                 // per-segment state behind; the NOT path (complement over the zones of the plan's
                 // segments) then keeps missing exactly the events of that segment
-                if k.is_none() {
+                // (only after the held flush has completed, and only in the long-prefix histories in
+                // which it was seen: a loss *while* the rotation is in flight is a different matter)
+                if k.is_none() && s.prefix_fills >= 8 && (*stage == "resumed" || *stage == "final" || *stage == "second-park") {
                     for p in [&s.park1, &s.park2, &s.tail_park].into_iter().flatten() {
-                        if p.0.starts_with("zone.") {
+                        // seen with the task held at zone.*, flush.type_written and flush.index_saved
+                        if p.0.starts_with("zone.") || p.0.starts_with("flush.") {
                             // the held rotation and the ones queued behind it on that shard
                             let evs: BTreeSet<i64> = al.seg_events.iter().filter(|((sh, sg), _)| *sh == p.1 && *sg >= p.2).flat_map(|(_, v)| v.iter().copied()).collect();
                             let missing: Vec<&i64> = want.iter().filter(|x| !gotn.contains(x)).collect();
